@@ -2,10 +2,12 @@
 EXTENDS FlatMemContract, Json, IOUtils, GraphLookup
 G == JsonDeserialize(IOEnv.GRAPH)
 NDuts == Len(G.duts)
-VARIABLES d, s
-vars == <<d, s, mem, open, obs>>
+VARIABLES d, s,
+          ph   \* toggles on a step that changes nothing else: a hung implementation (fixpoint of the product)
+               \* must be an infinite NON-stuttering behaviour, or WF_vars(Next) would let TLC walk away from it
+vars == <<d, s, mem, open, obs, ph>>
 C == G.duts[d].cfg
-Init == /\ d \in 1..NDuts /\ s = 0 /\ open = <<>> /\ mem = MemInit(C)
+Init == /\ d \in 1..NDuts /\ s = 0 /\ ph = 0 /\ open = <<>> /\ mem = MemInit(C)
         /\ obs = [okread |-> TRUE, okack |-> TRUE, okerr |-> TRUE, pending |-> FALSE]
 Step(iv) ==
   /\ s >= 0
@@ -13,8 +15,9 @@ Step(iv) ==
        IF e # <<>>
        THEN /\ s' = e[3] /\ d' = d
             /\ CStep(C, iv, e[2])
+            /\ ph' = IF e[3] = s /\ cvars' = cvars THEN 1 - ph ELSE 0
        ELSE /\ PrintT(<<"NEED", d, s, iv>>)
-            /\ s' = -1 /\ d' = d /\ UNCHANGED cvars
+            /\ s' = -1 /\ d' = d /\ ph' = 0 /\ UNCHANGED cvars
 Next == \E iv \in Inputs(C) : Step(iv)
 Spec == Init /\ [][Next]_vars /\ WF_vars(Next)
 Alias == [d |-> d, s |-> s, obs |-> obs, mem |-> mem, iv |-> CHOOSE iv \in Inputs(C) : Step(iv)]
